@@ -218,6 +218,63 @@ func (p c16) whenStacked(c *core.Ctx) {
 	}
 }
 
+// whenSharedGrouping: one grouping, whose leaf has a condition of its own, used at two (three) places under different conditions: every
+// copy is under its own pair of conditions and under nothing of the other use.
+func (p c16) whenSharedGrouping(c *core.Ctx) {
+	body := "grouping inner { leaf h { type string; } } grouping gg { leaf p { type int32; } leaf g { when \"p>5\"; type string; } uses inner { when \"p>5\"; } } " +
+		"container a { leaf o { type int32; } uses gg { when \"o>5\"; } } container b { leaf r { type int32; } uses gg { when \"r>5\"; } } container n { uses gg; } leaf q { type string; }"
+	m, err := parser.LoadModuleFromString(nil, "module m { namespace \"urn:m\"; prefix m; revision 2020-01-01; "+body+" }")
+	if err != nil {
+		c.Violate("when/load-error/shared-grouping", "load: %v\n%s", err, body)
+		return
+	}
+	for mask := 0; mask < 32; mask++ {
+		v := func(bit int) int {
+			if mask&(1<<bit) != 0 {
+				return 9
+			}
+			return 1
+		}
+		o, pa, r, pb, pn := v(0), v(1), v(2), v(3), v(4)
+		c.Eval()
+		c.Shape("when-shared-grouping/%05b", mask)
+		doc := fmt.Sprintf("{\"a\":{\"o\":%d,\"p\":%d,\"g\":\"x\",\"h\":\"y\"},\"b\":{\"r\":%d,\"p\":%d,\"g\":\"x\",\"h\":\"y\"},\"n\":{\"p\":%d,\"g\":\"x\",\"h\":\"y\"},\"q\":\"keep\"}", o, pa, r, pb, pn)
+		n, _ := nodeutil.ReadJSON(doc)
+		var got string
+		var rerr error
+		if c.Guard("shared grouping", func() { got, rerr = nodeutil.WriteJSON(node.NewBrowser(m, n).Root()) }) {
+			continue
+		}
+		wit := fmt.Sprintf("schema: %s\ndata: %s\noutput: %s", body, doc, got)
+		var top map[string]map[string]interface{}
+		var raw map[string]interface{}
+		if rerr != nil || jsonUnmarshal(got, &raw) != nil {
+			c.Violate("when/error/shared-grouping", "read failed: %v\n%s", rerr, wit)
+			continue
+		}
+		top = map[string]map[string]interface{}{}
+		for k, x := range raw {
+			if mm, ok := x.(map[string]interface{}); ok {
+				top[k] = mm
+			}
+		}
+		for _, site := range []struct {
+			name       string
+			outer, own bool
+		}{{"a", o > 5, pa > 5}, {"b", r > 5, pb > 5}, {"n", true, pn > 5}} {
+			_, hasP := top[site.name]["p"]
+			_, hasG := top[site.name]["g"]
+			_, hasH := top[site.name]["h"]
+			if hasP != site.outer || hasG != (site.outer && site.own) || hasH != (site.outer && site.own) {
+				c.Violate("when/shared-grouping/"+site.name, "container %s: p visible=%v (want %v), g visible=%v and h visible=%v (want %v: the condition of this use and the leaf's own)\n%s", site.name, hasP, site.outer, hasG, hasH, site.outer && site.own, wit)
+			}
+		}
+		if raw["q"] != "keep" {
+			c.Violate("when/hides-too-much/shared-grouping", "the sibling leaf disappeared\n%s", wit)
+		}
+	}
+}
+
 // whenOperandGuarded: the operand of a condition is itself under a condition; and a leaf under a condition read directly
 // (Find + Get, GetValue) instead of as part of its container.
 func (p c16) whenOperandGuarded(c *core.Ctx) {
@@ -288,6 +345,9 @@ func (p c16) Run(c *core.Ctx, idx int) {
 	}
 	if idx%97 == 2 {
 		p.whenOperandGuarded(c)
+	}
+	if idx%97 == 3 {
+		p.whenSharedGrouping(c)
 	}
 	if idx%97 == 0 {
 		p.usesWhenOnContainer(c)
